@@ -759,6 +759,7 @@ class Gen:
             a.append('--layout=flat')
             self.features.add('layout:flat')
         self.setup_args = a
+        self.wave4(with_sp)
         if self.bsd and '--layout=flat' not in a:
             for lines, path in ((BA, 'app/meson.build'), (BL, 'meson.build')):
                 for ln in lines:
@@ -796,6 +797,79 @@ class Gen:
             cands.append((f'-Dsp:warning_level={swl}', 'sp:warning_level', swl))
         arg, name, val = r2.choice(cands)
         self.configure = {'arg': arg, 'name': name, 'value': val}
+
+    def wave4(self, with_sp: bool) -> None:
+        """Two more input classes (own RNG: the rest of the project does not depend on them):
+        * preserve_path: true with sources in sub directories x {literal, option-derived, default} install_dir, for
+          install_data() and install_headers();
+        * tests / benchmarks that share name AND suites (a foreach that only varies args:/env:) - test names are not
+          unique in meson; a same-named test in another suite and in the subproject as controls."""
+        r4 = random.Random(f'c15-w4:{self.seed}')
+        L: T.List[str] = []
+        if r4.random() < 0.8:
+            for n in ('pp/a/one.txt', 'pp/b/deep/two.txt', 'pp/top.txt', 'pq/x/three.txt', 'pq/four.txt'):
+                self.data_file(n)
+            kinds = ['literal', 'option', 'default']
+            r4.shuffle(kinds)
+            groups = [("'pp/a/one.txt', 'pp/b/deep/two.txt', 'pp/top.txt'", kinds[0])]
+            if r4.random() < 0.6:
+                groups.append(("'pq/x/three.txt', 'pq/four.txt'", kinds[1]))
+            for srcs, kind in groups:
+                kw = ['preserve_path: true']
+                if kind == 'literal':
+                    kw.append('install_dir: ' + r4.choice(["'share/ppdemo'", "'ppabs data'", "'/opt/ppabs'"]))
+                elif kind == 'option':
+                    kw.append('install_dir: ' + r4.choice(["get_option('datadir') / 'ppopt'", "get_option('sysconfdir')", "get_option('localstatedir') / 'pp'"]))
+                if r4.random() < 0.4:
+                    kw.append("install_tag: 'pptag'")
+                L.append(f"install_data({srcs}, {', '.join(kw)})")
+                self.features.add('install_data:preserve_path:' + kind)
+            if r4.random() < 0.6:
+                for n in ('hp/x/h1.h', 'hp/h2.h'):
+                    self.data_file(n)
+                kind = r4.choice(['literal', 'option', 'subdir'])
+                kw = {'literal': "install_dir: 'custom/hp'", 'option': "install_dir: get_option('includedir') / 'hpopt'", 'subdir': "subdir: 'hpsub'"}[kind]
+                L.append(f"install_headers('hp/x/h1.h', 'hp/h2.h', preserve_path: true, {kw})")
+                self.features.add('install_headers:preserve_path:' + kind)
+
+        def dup(var: str, exe: str, bench: bool, proj: str, name: str, suite: T.Optional[str]) -> T.List[str]:
+            n = r4.randint(2, 3)
+            rows = []
+            for word in r4.sample(['alpha', 'beta', 'gamma', 'two words'], n):
+                tid = self.uniq('T')
+                self.dumper_tests[tid] = {'name': name, 'bench': bench, 'exe': 'c', 'project': proj}
+                rows.append(f"[{mstr(tid)}, {mstr(word)}]")
+            kw = [f"args: ['ID:' + {var}[0], {var}[1]]", f"env: {{'C15V_DUP': {var}[1]}}"]
+            if suite:
+                kw.append(f'suite: {mstr(suite)}')
+            func = 'benchmark' if bench else 'test'
+            return [f"foreach {var} : {mlist(rows)}", f"  {func}({mstr(name)}, {exe}, {', '.join(kw)})", 'endforeach']
+        if r4.random() < 0.75:
+            suite = r4.choice([None, 'dups', 's1'])
+            L += dup('c15dv', 'dumper', False, 'top', 'c15dup', suite)
+            self.features.add('test:same-name-same-suite')
+            if r4.random() < 0.5:
+                L += dup('c15dw', 'dumper', False, 'top', 'c15dup', 'othersuite' if suite != 'othersuite' else 'x')
+                self.features.add('test:same-name-other-suite')
+            if r4.random() < 0.5:
+                L += dup('c15db', 'dumper', True, 'top', 'c15dupbench', r4.choice([None, 'dups']))
+                self.features.add('benchmark:same-name-same-suite')
+            if with_sp and r4.random() < 0.5:
+                self.files['subprojects/sp/meson.build'] += '\n'.join(dup('c15ds', 'sp_dumper', False, 'sp', 'c15dup', suite)) + '\n'
+                self.features.add('test:same-name-in-subproject')
+        # wave 5: installed targets that `all` does not build (install entries meson marks optional)
+        r5 = random.Random(f'c15-w5:{self.seed}')
+        if r5.random() < 0.7:
+            nout = r5.choice([1, 2])
+            outs = ['ondemand.txt', 'ondemand2.dat'][:nout]
+            kw = ['output: ' + mlist([mstr(x) for x in outs]), "command: [py, gen_tool, 'ond', '@OUTPUT@']", 'build_by_default: false',
+                  'install: true', 'install_dir: ' + r5.choice(["'share/ondemand'", "get_option('datadir') / 'od'"])]
+            if r5.random() < 0.4:
+                kw.append("install_tag: 'odtag'")
+            L.append(f"ct_ondemand = custom_target('ondemand', {', '.join(kw)})")
+            self.features.add('custom:installed-but-not-built-by-default')
+        if L:
+            self.files['meson.build'] += '\n'.join(L) + '\n'
 
     def desc(self) -> dict:
         return {'seed': str(self.seed), 'setup_args': self.setup_args, 'printed': self.printed,
